@@ -158,6 +158,8 @@ struct Thread {
     uint64_t hook_cv = 0, hook_mutex = 0;  // single-threaded wait: condvar being waited on while verif_wait_hook runs
     bool hook_timed = false;
     Val wait_deadline;
+    Val pending_late;   // lateness drawn at wait entry (kept across the restart of a forking builtin)
+    int64_t wait_late = 0;
     std::vector<std::pair<uint64_t, uint64_t>> tls_dtors;
 };
 
@@ -959,6 +961,10 @@ struct Engine {
     DenseMap<const SwitchInst *, std::vector<uint32_t>> switch_succ;
 
     // ---------------------------------------------------------------- arithmetic
+    struct DivMemo { z3::expr self; z3::expr x; u128 c; bool signed_; };
+    std::unordered_map<unsigned, DivMemo> div_memo, rem_memo, mul_memo;
+    size_t memo_size() const { return div_memo.size() + rem_memo.size() + mul_memo.size(); }
+    void memo_clear() { div_memo.clear(); rem_memo.clear(); mul_memo.clear(); }
     Val binop(unsigned op, const Val &a, const Val &b) {
         if (!a.sym() && !b.sym()) {
             unsigned w = a.w;
@@ -991,7 +997,35 @@ struct Engine {
             if (a.c == 0 && (op == Instruction::Add || op == Instruction::Or || op == Instruction::Xor)) return b;
             if (a.c == 0 && (op == Instruction::Mul || op == Instruction::And)) return Val::C(a.w, 0);
         }
+        // (x div c) * c + (x rem c) == x  (timespec split/recombine of a symbolic deadline): recognised through memo tables
+        if (op == Instruction::Add) {
+            for (int k = 0; k < 2; k++) {
+                const Val &p = k ? b : a, &q = k ? a : b;
+                if (!p.sym() || !q.sym()) break;
+                auto mi = mul_memo.find(p.s.e().id());
+                auto ri = rem_memo.find(q.s.e().id());
+                if (mi != mul_memo.end() && ri != rem_memo.end()) {
+                    auto di = div_memo.find(mi->second.x.id());
+                    if (di != div_memo.end() && di->second.c == mi->second.c && ri->second.c == mi->second.c && di->second.signed_ == ri->second.signed_ &&
+                        di->second.x.id() == ri->second.x.id())
+                        return Val::S(di->second.x);
+                }
+            }
+        }
         z3::expr x = a.ex(), y = b.ex();
+        if ((op == Instruction::SDiv || op == Instruction::UDiv || op == Instruction::SRem || op == Instruction::URem) && a.sym() && !b.sym()) {
+            bool sg = op == Instruction::SDiv || op == Instruction::SRem;
+            bool isdiv = op == Instruction::SDiv || op == Instruction::UDiv;
+            Val r = mk(op == Instruction::SDiv ? x / y : op == Instruction::UDiv ? z3::udiv(x, y) : op == Instruction::SRem ? z3::srem(x, y) : z3::urem(x, y));
+            if (r.sym()) { if (memo_size() > 200000) memo_clear(); (isdiv ? div_memo : rem_memo).insert_or_assign(r.s.e().id(), DivMemo{r.s.e(), a.s.e(), b.c, sg}); }
+            return r;
+        }
+        if (op == Instruction::Mul && (a.sym() != b.sym())) {
+            const Val &sv = a.sym() ? a : b, &cv = a.sym() ? b : a;
+            Val r = mk(x * y);
+            if (r.sym() && div_memo.count(sv.s.e().id())) mul_memo.insert_or_assign(r.s.e().id(), DivMemo{r.s.e(), sv.s.e(), cv.c, true});
+            return r;
+        }
         switch (op) {
             case Instruction::Add: return mk(x + y);
             case Instruction::Sub: return mk(x - y);
